@@ -10,7 +10,7 @@ R-WIRE/R-CODE  reader layouts and code tables equal the published ones (shared w
 """
 import re
 
-from . import c01, comp, ir, wire
+from . import c01, c03, comp, ir, wire
 from .report import m_drop_stmt, m_replace
 
 META = {
@@ -162,6 +162,7 @@ def rules(ck, P):
     # ---------------- R-CACHE-KEY: a cached value is a function of its key
     _cache_key_rules(ck, P)
     wire.block_geometry_rules(ck, P)
+    c03.pm_cover_rules(ck, P, "R-PM-COVER")
     # ---------------- R-TAR-PREFIX
     tr = [b for b in P.bodies if b["q"].endswith("tar::reader::TarTilesReader::open_path")]
     if ck.anchor("R-TAR-PREFIX", "tar open_path", tr, 1):
